@@ -966,14 +966,20 @@ func (m *Memory) Match(
 func (m *Memory) checkGc() {
 	// TODO flush WAL checkpoint?
 	// maybe GC TODO cap to max diff
-	sinceLastGc := m.SavedGc.Load()
-	now := m.Saved.Load()
-	if float32(now-sinceLastGc) <= float32(m.Cfg.MaxRecords)*1.5 ||
-		!m.gcMx.TryLock() {
-
+	due := func() bool {
+		return float32(m.Saved.Load()-m.SavedGc.Load()) >
+			float32(m.Cfg.MaxRecords)*1.5
+	}
+	if !due() {
 		return
 	}
+	// batches land in their own goroutines, in any order: none of them may be
+	// half way in (times without ticks) while the rotation deletes
+	m.gcMx.Lock()
 	defer m.gcMx.Unlock()
+	if !due() {
+		return
+	}
 
 	timeDb := gorm.G[Time](m.Db)
 	// ticks reference times: they go first
@@ -1064,9 +1070,11 @@ func (m *Memory) writeDb(rLocked bool) {
 		}
 		// TODO optimize: parallel save?
 		// times
+		m.gcMx.RLock()
 		dbTimes := gorm.G[Time](m.Db)
 		err := dbTimes.CreateInBatches(m.Mach.Context(), &times, 100)
 		if err != nil {
+			m.gcMx.RUnlock()
 			m.onErr(err)
 			return err
 		}
@@ -1074,6 +1082,7 @@ func (m *Memory) writeDb(rLocked bool) {
 		// ticks
 		dbTicks := gorm.G[Tick](m.Db)
 		err = dbTicks.CreateInBatches(m.Mach.Context(), &ticks, 100)
+		m.gcMx.RUnlock()
 		if err != nil {
 			m.onErr(err)
 			return err
